@@ -14,7 +14,8 @@ TRUSTED_BASE = [
     "Lean 4.33 kernel (lake build; thorough tier re-checks the .olean files with leanchecker)",
     "axioms allowed in property theorems: propext, Classical.choice, Quot.sound (audited with #print axioms on every run); no sorry/admit/native_decide/bv_decide/own axioms (grepped on every run)",
     "harness/translate.py: regenerates lean/BumpverVerif/Gen/*.lean from /repo's working tree on every run (trusted to transcribe literals; the tables are also executed by the driver in the correspondence check)",
-    "harness/translate_funcs.py and its plug-in modules harness/translate_{cli,patterns,parse,format,rewrite,config,v1,effects}.py (picked up automatically by translate.py): translate the BODY of ~100 bumpver functions (the bump core, the read and render side of both engines, the pattern compiler, the rewrite path, the config readers and init, the cli decision functions, the PEP 440 key, the VCS step sequencing as an effect monad) from their Python AST to Lean on every run (Gen/F_*.lean); each is PROVED equal to the hand model for all inputs (Proofs/Tie_*.lean, registered per property in harness/ties.json, built and axiom-audited by the checks). Trusted: each translator's reading of its documented Python subset (harness/TRANSLATE_*.md: typing, truthiness, evaluation order, exceptions as Except/Option, generators as lists, effects as Eff), the hard-coded signature tables, and the TRUSTED PRIMITIVES that stand for Python built-ins and third-party calls (Model/CliPrims.lean, Model/PyPrims.lean, Model/ConfigPy.lean, Model/Eff.lean, Gen/F_PyPrelude, F_formatPrelude, F_rewriteTypes, F_v1Prim, PatternsPrims: str methods, dict order, sorted/max stability, re.compile/match as the model's parseRe/reMatch, datetime, lexid.next_id, shlex, subprocess calls as trace events); hypotheses where Python and model differ on inputs the callers never pass are explicit in the tie statements",
+    "harness/translate_funcs.py and its plug-in modules harness/translate_{cli,patterns,parse,format,rewrite,config,v1,effects,argv,v1rewrite,filepatterns,commands}.py (picked up automatically by translate.py): translate the BODY of ~130 bumpver functions (the bump core, the read and render side of both engines, the pattern compiler, both rewrite paths, the config readers, file-pattern compilation and init, the cli decision functions and the commands `test`/`update` themselves, the PEP 440 key, the VCS step sequencing, argument vectors and hooks as effect monads) from their Python AST to Lean on every run (Gen/F_*.lean); each is PROVED equal to the hand model for all inputs (Proofs/Tie_*.lean, registered per property in harness/ties.json, built and axiom-audited by the checks). Trusted: each translator's reading of its documented Python subset (harness/TRANSLATE_*.md: typing, truthiness, evaluation order, exceptions as Except/Option, generators as lists, effects as Eff), the hard-coded signature tables, and the TRUSTED PRIMITIVES that stand for Python built-ins and third-party calls (Model/CliPrims.lean, Model/PyPrims.lean, Model/ConfigPy.lean, Model/Eff.lean, Model/EffK.lean, Model/Cmd.lean, Model/FilePatterns.lean, Gen/F_PyPrelude, F_formatPrelude, F_rewriteTypes, F_v1Prim, PatternsPrims: str methods, dict order, sorted/max stability, re.compile/match as the model's parseRe/reMatch, datetime, lexid.next_id, shlex, subprocess calls as trace events); hypotheses where Python and model differ on inputs the callers never pass are explicit in the tie statements",
+    "the trusted primitives that are plain str/list/dict/sort/date functions are compared with CPython on every run of every check that has ties (driver op `prim`, harness/props/prims.py: 45 primitives, random arguments, 1,500 calls quick / 30,000 thorough)",
     "Model/Update.lean composes the hand models of the version decision, dirty check, rewrite phase and VCS plan into ONE model of `bumpver update`; tied to the real CLI by the op update_full (exit code, event trace, file contents)",
     "correspondence check: the executable Lean model (compiled driver) and the real bumpver code run on the same generated inputs; generator quality bounds what it sees",
     "modelled rather than verified: Python re on the fragment bumpver uses, datetime/strftime fields, str.format on command templates, shlex.split, lexid.next_id, list.sort stability, tuple comparison",
